@@ -63,6 +63,9 @@ def gen_output_src(r):
     )
     if r.random() < 0.5:
         parts.append("class Other(object):\n    momentum: int = 1\n    def fit(self, epochs=1):\n        return epochs\n")
+    if r.random() < 0.35:
+        # positional-only parameters WITH defaults: more stored defaults than ordinary arguments
+        parts.append("def connect(host, port=5432, /, timeout: float = 10.0, mode: str = 'slow', *, retry: bool = False):\n    return port\n")
     parts.append("def run(epochs: int = 1, lr: float = 0.5, *, shuffle: bool = False):\n    return epochs\n")
     if r.random() < 0.4 and not any(x.startswith("def fit(") for x in parts):
         parts.append("def fit(epochs=2, lr=3):\n    return lr\n")
@@ -161,6 +164,24 @@ class C14(Prop):
         finally:
             shutil.rmtree(d, ignore_errors=True)
 
+    def run_after_wrapped_call(self, c):
+        """the same input PATH, unmodified, used twice in one process: first with a wrap template, then as the case says;
+        -> the output of the second call (nothing of the first may show)"""
+        d = tempfile.mkdtemp(prefix="c14w")
+        try:
+            ip, op = os.path.join(d, "input.py"), os.path.join(d, "output.py")
+            with open(ip, "w") as f:
+                f.write(INPUT_SRC)
+            for wrap in ("List[{output_param}]", c["wrap"]):
+                with open(op, "w") as f:
+                    f.write(c["output"])
+                self.SP.sync_properties(input_eval=False, input_filename=ip, input_params=[".".join(p[0]) for p in c["pairs"]],
+                                        output_filename=op, output_params=[".".join(p[1]) for p in c["pairs"]], output_param_wrap=wrap)  # fmt: skip
+            with open(op) as f:
+                return f.read()
+        finally:
+            shutil.rmtree(d, ignore_errors=True)
+
     def run_real(self, c):
         d = tempfile.mkdtemp(prefix="c14")
         try:
@@ -250,6 +271,13 @@ class C14(Prop):
             got_ann = ast.unparse(new.annotation) if getattr(new, "annotation", None) is not None else None
             if want_ann is not None and got_ann != want_ann:
                 fails.append({"what": "addressed node does not carry the input's (wrapped) annotation", "pair": [il, ol], "want": want_ann, "got": got_ann, "_class": cls})
+        if not c["eval"] and cls is None and not fails:
+            try:
+                again = self.run_after_wrapped_call(c)
+                if again != o_after:
+                    fails.append({"what": "the result depends on an earlier call in the same process (same unmodified input file, another wrap template)", "alone": o_after[:600], "after_an_earlier_call": again[:600], "_class": None})
+            except Exception as e:
+                fails.append({"what": "second call on the same unmodified input raised", "exc": exc_kind(e), "_class": None})
         if c["eval"] and cls is None and not fails:
             try:
                 first, second = self.run_twice_eval(c)
